@@ -139,9 +139,10 @@ async fn make_env() -> Env {
     let store = Arc::new(JwksKeyStore::new(url, Duration::from_secs(36000), CancellationToken::new()));
     let v_static = SnapTokenVerifier::new(decoding_key(&keys.stat));
     let v_jwks = SnapTokenVerifier::new(decoding_key(&keys.stat)).with_jwks_store(store.clone());
+    // warm the store (not required: verify() fetches on demand); a store that cannot resolve the key is
+    // an observation about the code under test (kid-bearing tokens will be refused), not a tool failure
     if tokio::time::timeout(Duration::from_secs(60), store.await_key(KID_KNOWN)).await.ok().flatten().is_none() {
-        eprintln!("TOOL: JWKS key could not be fetched over loopback");
-        std::process::exit(2);
+        eprintln!("note: JWKS key could not be resolved through the JwksKeyStore over loopback");
     }
     let reg = Arc::new(RecReg::default());
     let mk = |v: &SnapTokenVerifier| {
